@@ -492,12 +492,15 @@ impl Check for Steffensen {
         "steffensen"
     }
     fn rule(&self) -> String {
-        format!("contractions {:?} x start = fixed point + offset in {{-0.5,-0.1,0,0.1,0.5}} x tolerance 1e-4..1e-13 (plain fn items, calls counted through a thread-local); signature = (map, outcome, tolerance)", MAPS.iter().map(|m| m.0).collect::<Vec<_>>())
+        format!("contractions {:?} x start = fixed point + offset in {{-0.5, -0.45, ..., 0.5}} x tolerance 1e-4..1e-13 (plain fn items, calls counted through a thread-local); signature = (map, outcome, tolerance)", MAPS.iter().map(|m| m.0).collect::<Vec<_>>())
     }
     fn points(&self, t: Tier) -> Vec<StefPt> {
         let mut v = vec![];
         for map in 0..MAPS.len() {
-            for &offset in &[-0.5, -0.1, 0.0, 0.1, 0.5] {
+            // 21 starts per map: which iterate the final rounding lands on (and whether the second difference vanishes
+            // exactly before the step does) depends on the start
+            for k in -10i32..=10 {
+                let offset = 0.05 * k as f64;
                 for &tol in &t.pick(vec![1e-4, 1e-8, 1e-13], vec![1e-4, 1e-6, 1e-8, 1e-10, 1e-12, 1e-13]) {
                     v.push(StefPt { map, offset, tol });
                 }
